@@ -86,6 +86,8 @@ func TestC03(t *testing.T) {
 	run.Finish(t)
 }
 
+const checkTimeout = 1 * time.Second
+
 func oneHistory(run *rep.Run, rng *rand.Rand, h int, eng, bal string) {
 	n := 3 + rng.Intn(2)
 	eps := make([]*epState, n)
@@ -110,7 +112,7 @@ func oneHistory(run *rep.Run, rng *rand.Rand, h int, eng, bal string) {
 			return &backend.Resp{Status: 200, Body: []byte(`{"served_by":"` + name + `"}`), Headers: [][2]string{{"Content-Type", "application/json"}}, KeepAlive: true}
 		})
 		eps[i] = e
-		wends = append(wends, world.Endpoint{Name: name, URL: e.b.URL(), Type: "ollama", Priority: []int{100, 100, 50, 100}[i], CheckInterval: 5 * time.Second, CheckTimeout: 300 * time.Millisecond})
+		wends = append(wends, world.Endpoint{Name: name, URL: e.b.URL(), Type: "ollama", Priority: []int{100, 100, 50, 100}[i], CheckInterval: 5 * time.Second, CheckTimeout: checkTimeout})
 	}
 	defer func() {
 		for _, e := range eps {
@@ -186,7 +188,7 @@ func oneHistory(run *rep.Run, rng *rand.Rand, h int, eng, bal string) {
 		switch x := rng.Intn(10); {
 		case x < 4: // change a health answer, then run a round
 			i := rng.Intn(n)
-			healthMode[i] = []string{"200", "200", "200", "500", "reset", "hang"}[rng.Intn(6)]
+			healthMode[i] = []string{"200", "200", "200", "200", "500", "500", "reset", "reset", "hang"}[rng.Intn(9)]
 			switch healthMode[i] {
 			case "200":
 				eps[i].b.SetHealth(200, "")
@@ -209,9 +211,15 @@ func oneHistory(run *rep.Run, rng *rand.Rand, h int, eng, bal string) {
 				if modes[i] == "200" {
 					// only a 2xx answer actually sent during the round can re-admit E (the health
 					// breaker may have blocked the probe altogether)
-					if e.b.Health2xxBetween(call, ret) {
+					if t := e.b.LastHealth2xxIn(call, ret); t != 0 {
 						e.ra = append(e.ra, raEvent{call, ret})
 						expected[i] = "healthy"
+						if time.Duration(t-call) > checkTimeout/2 {
+							// the backend did answer, but so late into the round (overloaded
+							// machine) that Olla may already have given the probe up
+							expected[i] = ""
+							run.Count("late_health_answers_not_judged", 1)
+						}
 					} else {
 						expected[i] = "nonroutable"
 						run.Count("rounds_blocked_by_health_breaker", 1)
